@@ -105,12 +105,8 @@ func TestC17Threads(t *testing.T) {
 				return false
 			}
 		}
-		if !wait(&writersWG, 30*time.Second) {
-			cancelAll()
-			panic("HARNESS-ERROR: Store calls still running after 30 s of wall clock (overloaded machine?); impl " + impl)
-		}
-		// every key is stored now: a reader that does not return was not woken. To tell that from a
-		// starved machine a heartbeat goroutine must have made normal progress during the wait.
+		// A heartbeat goroutine tells a wedged store from a starved machine: a violation is reported only
+		// if the heartbeat made normal progress while the callers did not return.
 		var beats int64
 		hbStop := make(chan struct{})
 		go func() {
@@ -125,6 +121,16 @@ func TestC17Threads(t *testing.T) {
 				}
 			}
 		}()
+		if !wait(&writersWG, 20*time.Second) {
+			close(hbStop)
+			cancelAll()
+			if atomic.LoadInt64(&beats) < 700 {
+				panic("HARNESS-ERROR: Store calls still running after 20 s and the machine is starved (heartbeat made little progress); impl " + impl)
+			}
+			rt.Fatalf("STORE HANGS: %s: Store calls for distinct keys did not return within 20 s although the machine was responsive (the store is wedged); plan %v", impl, plans)
+		}
+		// every key is stored now: a reader that does not return was not woken.
+		atomic.StoreInt64(&beats, 0)
 		ok := wait(&readersWG, 15*time.Second)
 		close(hbStop)
 		if !ok {
